@@ -20,6 +20,11 @@ func sendOpen(w io.Writer, asn uint32, routerID net.IP, holdTime time.Duration) 
 		panic("non-ipv4 address used as RouterID")
 	}
 
+	holdTimeSeconds, err := safeconvert.IntToUInt16(int(holdTime.Seconds()))
+	if err != nil {
+		return fmt.Errorf("invalid hold time %s: %w", holdTime, err)
+	}
+
 	msg := struct {
 		// Header
 		Marker1, Marker2 uint64
@@ -61,7 +66,7 @@ func sendOpen(w io.Writer, asn uint32, routerID net.IP, holdTime time.Duration) 
 
 		Version:  4,
 		ASN16:    uint16(asn), // Possibly tweaked below
-		HoldTime: uint16(holdTime.Seconds()),
+		HoldTime: holdTimeSeconds,
 		// RouterID filled below
 
 		OptsLen: 20,
@@ -83,7 +88,6 @@ func sendOpen(w io.Writer, asn uint32, routerID net.IP, holdTime time.Duration) 
 		ASN32:   asn,
 	}
 
-	var err error
 	msg.Len, err = safeconvert.IntToUInt16(binary.Size(msg))
 	if err != nil {
 		return fmt.Errorf("invalid message len %w", err)
